@@ -173,7 +173,8 @@ func Intersection(limit int, sets ...*Set) (*Set, bool) {
 	// Use divide & conquer to get the set intersections
 	switch len(sets) {
 	case 1:
-		return sets[0], false
+		// Return a copy so that the result never aliases the operand.
+		return NewSet(sets[0].GetAll()), false
 	case 2:
 		intersection := NewSet([]string{})
 		var limitReached bool
@@ -204,9 +205,11 @@ func Intersection(limit int, sets ...*Set) (*Set, bool) {
 func Union(sets ...*Set) *Set {
 	switch len(sets) {
 	case 1:
-		return sets[0]
+		// Return a copy so that the result never aliases the operand.
+		return NewSet(sets[0].GetAll())
 	case 2:
-		union := sets[0]
+		// Build the union in a new set; the operands must not be modified.
+		union := NewSet(sets[0].GetAll())
 		union.Add(sets[1].GetAll())
 		return union
 	default:
